@@ -104,7 +104,7 @@ def build_events(stream, info=None):
             if not flag:
                 return None
             counter[0] += 1
-            name = "a%d" % counter[0]
+            name = ["a%d", "A-%d", "z_%d", "Z9-%d_"][counter[0] % 4] % counter[0]
             anchors.append(name)
             return name
 
